@@ -21,9 +21,12 @@ R = Registry(
         "LOADED version, checks the matched row count after executing and raises StaleDataError under a condition "
         "that depends only on row counts, the dialect's rowcount capabilities and the versioning flag, never uses "
         "executemany for versioned rows when only single-row counts are reliable, and the collectors put the old "
-        "version into the WHERE parameter and the generator's result into the SET parameter."
+        "version into the WHERE parameter and the generator's result into the SET parameter; after each INSERT/UPDATE "
+        "a server-generated version that is still unloaded is re-read in the same flush, under conditions that mention "
+        "only the versioning configuration and the attribute's loadedness."
     ),
-    not_decided="interleavings of concurrent transactions; isolation behaviour of the backend; server-side version generation.",
+    not_decided="interleavings of concurrent transactions; isolation behaviour of the backend; server-side version generation "
+                "beyond the immediate re-read step (RETURNING support of the dialect, triggers).",
 )
 
 PERS = "orm/persistence.py"
@@ -246,6 +249,13 @@ def r2(ctx):
         w = g.must_pass(execs, [g.exit], test_nodes, edge_ok=no_exc)
         ctx.check(w is None, f"{f.key}:check-after-execute", "a normal path from connection.execute() leaves the emitter without the row-count test", f"{len(execs)} execute sites -> row-count test", f.loc, w)
         # (b) vocabulary of the raise condition
+        # conditions that select the WAY of executing (they dominate a connection.execute() site: row by row with
+        # values / row by row / executemany) may take part in the decision: which counts are reliable depends on it.
+        # Whether the decision is then right for each way of executing is C44-R6's question.
+        mode_reads = set()
+        for e_ in execs:
+            for t_, _pol in _eg(g, e_):
+                mode_reads |= dotted_reads(t_)
         offenders = []
         for t, pol in guards:
             if not any(x is first_test or True for x in [t]):
@@ -269,7 +279,7 @@ def r2(ctx):
                         continue  # an expanded local: its definition's reads are judged instead
                     if binds and all(isinstance(v, ast.Constant) for v in binds):
                         continue
-                    if not _allowed_read(r, flag, count_locals):
+                    if not _allowed_read(r, flag, count_locals) and r not in mode_reads:
                         offenders.append(r)
         # one instance per foreign condition (a second foreign condition is a second violation, never absorbed by a
         # known finding about the first one); the plain key records the emitter whose vocabulary is clean
@@ -908,6 +918,124 @@ def r6(ctx):
                       else f"{len(set(nodes))} site(s): this way of executing is never used for a versioned table with countable rows", f.loc)
 
 
+# ---------------------------------------------------------------------- C44-R7: server-generated version is re-read in the same flush
+_FINAL_WORDS = {"version_id_col", "version_id_generator", "_version_id_prop", "_version_id_has_server_side_value", "_load_on_ident", "unloaded"}
+_WANT_FINAL = _mentions(_FINAL_WORDS)
+_RELOADERS = {"_load_on_ident", "load_on_ident", "_load_on_pk_identity", "load_on_pk_identity"}
+
+
+def _mentions_version_prop(e) -> bool:
+    return any(isinstance(n, ast.Attribute) and n.attr in ("_version_id_prop", "version_id_col") for n in ast.walk(e))
+
+
+def _is_version_config(d: str) -> bool:
+    return any(seg.startswith("version_id_") or seg.startswith("_version_id_") for seg in d.split(".")[1:])
+
+
+@R.rule("C44-R7", floor=2, template="T-GUARD/T-PATH",
+        desc="_finalize_insert_update_commands (runs after every INSERT and UPDATE of a flush): when the version is generated "
+             "by the server, a version attribute that is still unloaded after the statement is scheduled for an immediate "
+             "re-read under conditions that depend only on the versioning configuration and on the attribute being unloaded "
+             "(not on insert-vs-update or any option), and once scheduled the re-read is performed before the next state is "
+             "handled -- otherwise the next flush compares against a version this session never wrote")
+def r7(ctx):
+    f = G.normal_form(ctx, ctx.func(f"{PERS}::_finalize_insert_update_commands"), want=_WANT_FINAL)
+    g = ctx.cfg(f.node)
+    defs = G.single_defs(f.node)
+    kbase = f.key
+    reloads = []
+    for c in calls_in(f.node):
+        nm = (dotted(c.func) or "").split(".")[-1]
+        if nm in _RELOADERS:
+            for k in c.keywords:
+                if k.arg == "only_load_props":
+                    reloads.append((c, k.value))
+    ctx.require(reloads, f"{kbase}: no loader call with only_load_props= found (the targeted re-read of expired attributes)")
+    lists = {v.id for c, v in reloads if isinstance(v, ast.Name)}
+    # statements that put the version attribute's key into a list handed to only_load_props (or the loader call itself)
+    sched = []
+    for st in walk_stmts(f.node.body):
+        tgt, val = None, None
+        if isinstance(st, ast.Expr) and isinstance(st.value, ast.Call) and isinstance(st.value.func, ast.Attribute) \
+                and st.value.func.attr in ("extend", "append", "add", "update", "insert") and isinstance(st.value.func.value, ast.Name) and st.value.args:
+            tgt, val = st.value.func.value.id, st.value.args[-1]
+        elif isinstance(st, ast.AugAssign) and isinstance(st.target, ast.Name):
+            tgt, val = st.target.id, st.value
+        elif isinstance(st, ast.Assign) and len(st.targets) == 1 and isinstance(st.targets[0], ast.Name):
+            tgt, val = st.targets[0].id, st.value
+        if tgt in lists and val is not None and _mentions_version_prop(G.expand_expr(val, defs, keep=lists)):
+            sched.append((st, tgt))
+    for c, v in reloads:
+        if not isinstance(v, ast.Name) and _mentions_version_prop(G.expand_expr(v, defs)):
+            st = next((x for x in walk_stmts(f.node.body) if any(y is c for y in ast.walk(x)) and not isinstance(x, (ast.If, ast.For, ast.While, ast.With, ast.Try))), None)
+            if st is not None:
+                sched.append((st, None))
+    if not sched:
+        ctx.violation(f"{kbase}:version-reload-guard", "the version attribute is never scheduled for a re-read (only_load_props never receives "
+                      "mapper._version_id_prop.key): with a server-generated version and no RETURNING the state keeps an expired version "
+                      "that the next flush loads from whatever another transaction wrote", f.loc)
+        ctx.violation(f"{kbase}:version-reload-performed", "cannot hold: the version attribute is never scheduled", f.loc)
+        return
+    bool_defs = {n: v for n, v in defs.items() if isinstance(v, (ast.BoolOp, ast.Compare, ast.UnaryOp))}
+
+    def offending(guards, allow_names):
+        bad = []
+        for t, pol in guards:
+            for e, p in G.ast_atoms(G.expand_expr(t, bool_defs), pol):
+                e2 = G.expand_expr(e, defs, keep=allow_names)
+                if isinstance(e2, ast.Compare) and len(e2.ops) == 1 and isinstance(e2.ops[0], (ast.In, ast.NotIn)) and _mentions_version_prop(e2.left):
+                    continue  # `<version key> in state.unloaded` / `not in state_dict`: is the attribute loaded
+                for r in sorted(dotted_reads(e2)):
+                    if r in ("None", "True", "False") or r in allow_names or _is_version_config(r):
+                        continue
+                    if any(r != o and o.startswith(r + ".") for o in dotted_reads(e2)):
+                        continue
+                    bad.append(r)
+        return bad
+
+    off = set()
+    for st, _l in sched:
+        for n in g.nodes_for(st)[:1]:
+            off.update(offending(_eg(g, n), set()))
+    for c, v in reloads:
+        if isinstance(v, ast.Name) and v.id in {l for _s, l in sched}:
+            for n in g.nodes_containing(c)[:1]:
+                off.update(offending(_eg(g, n), {v.id}))
+    if not off:
+        ctx.ok(f"{kbase}:version-reload-guard", "scheduled under the versioning configuration and `key in state.unloaded` only")
+    for r in sorted(off):
+        ctx.violation(f"{kbase}:version-reload-guard[{r}]",
+                      f"whether the server-generated version is re-read after the statement also depends on `{r}`: when that condition "
+                      "fails the state keeps an expired version attribute, the next flush lazy-loads the version another "
+                      "transaction wrote and overwrites that transaction's row without StaleDataError", f.loc)
+    # once scheduled, the re-read happens before the next state / the end of the function
+    per_state = [n.id for n in g.nodes if n.kind == "for"]
+    bad_paths = []
+    for st, lname in sched:
+        rl = [i for c, v in reloads if (lname is None and any(y is c for y in ast.walk(st))) or (isinstance(v, ast.Name) and v.id == lname)
+              for i in g.nodes_containing(c)]
+        if lname is None:
+            continue
+
+        def edge_ok(a, b, lab, lname=lname):
+            if lab == "exc":
+                return False
+            nd = g.node(a)
+            if nd.kind == "test" and lab in ("true", "false") and hasattr(nd.stmt, "test"):
+                for e, p in G.ast_atoms(nd.stmt.test, lab == "true"):
+                    if isinstance(e, ast.Name) and e.id == lname and not p:
+                        return False  # the list is not empty after the scheduling statement
+            return True
+
+        w = g.must_pass(g.nodes_for(st), [g.exit] + per_state, rl, edge_ok=edge_ok)
+        if w is not None:
+            bad_paths.append((st, w))
+    ctx.check(not bad_paths, f"{kbase}:version-reload-performed",
+              "after the version attribute has been scheduled (line " + ", ".join(str(st.lineno) for st, _w in bad_paths) + ") a normal path reaches the next "
+              "state without the loader call that receives the list as only_load_props: the scheduled re-read is skipped",
+              "every path from the scheduling statement passes the loader call", f.loc, bad_paths[0][1] if bad_paths else None)
+
+
 # ---------------------------------------------------------------------- self-test battery
 R.mutant("update-criterion-unconditional", PERS,
          sub("        if needs_version_id:\n            clauses._append_inplace(\n                mapper.version_id_col\n                == sql.bindparam(\n                    mapper.version_id_col._label,\n                    type_=mapper.version_id_col.type,\n                )\n            )\n\n        if existing_stmt is not None:",
@@ -1083,3 +1211,59 @@ R.mutant("benign-check-tail-merged-condition", PERS,
 R.mutant("check-tail-guard-clause-skips-check-for-versioned", PERS,
          sub(_TAIL, "        if not check_rowcount or needs_version_id:\n            continue\n\n        if rows != len(records):\n"
                     "            raise orm_exc.StaleDataError(\n                \"UPDATE statement on table '%s' expected to \"\n                \"update %d row(s); %d were matched.\"\n                % (table.description, len(records), rows)\n            )\n", count=2), ("C44-R2", "C44-R6"))
+
+
+# ---------------------------------------------------------------------- str2-r: round-2 seeds
+# seed C44_3: the three per-branch definitions of check_rowcount "de-duplicated" into one expression before the branches
+_CR_ROW1 = "                rows += c.rowcount\n                check_rowcount = enable_check_rowcount and assert_singlerow\n"
+_CR_ROW2 = "            if not allow_executemany:\n                check_rowcount = enable_check_rowcount and assert_singlerow\n"
+_CR_MANY = ("                check_rowcount = enable_check_rowcount and (\n                    assert_multirow\n                    or (assert_singlerow and len(multiparams) == 1)\n                )\n\n")
+_CR_AT = "        allow_executemany = not return_defaults and not needs_version_id\n\n"
+_CR_DROP = [sub(_CR_ROW1, "                rows += c.rowcount\n"), sub(_CR_ROW2, "            if not allow_executemany:\n"), sub(_CR_MANY, "")]
+R.mutant("seed3-check-rowcount-hoisted-with-executemany-formula", PERS,
+         chain(*_CR_DROP, sub(_CR_AT, _CR_AT + "        check_rowcount = enable_check_rowcount and (\n            assert_multirow or (assert_singlerow and len(records) == 1)\n        )\n\n")),
+         "C44-R6")
+R.mutant("check-rowcount-hoisted-executemany-formula-via-locals", PERS,
+         chain(*_CR_DROP, sub(_CR_AT, _CR_AT + "        single_record = len(records) == 1\n        countable = assert_multirow or (assert_singlerow and single_record)\n        check_rowcount = enable_check_rowcount and countable\n\n")),
+         "C44-R6")
+# the same tidy-up done right: one definition per way of executing, chosen before the branches
+R.mutant("benign-check-rowcount-hoisted-per-branch", PERS,
+         chain(*_CR_DROP, sub(_CR_AT, _CR_AT + "        if hasvalue or not allow_executemany:\n            check_rowcount = enable_check_rowcount and assert_singlerow\n        else:\n"
+                                               "            check_rowcount = enable_check_rowcount and (\n                assert_multirow or (assert_singlerow and len(records) == 1)\n            )\n\n")),
+         None)
+R.mutant("benign-check-rowcount-hoisted-row-by-row-local", PERS,
+         chain(*_CR_DROP, sub(_CR_AT, _CR_AT + "        row_by_row = hasvalue or not allow_executemany\n        check_rowcount = enable_check_rowcount and (\n            assert_multirow\n"
+                                               "            or (assert_singlerow and (row_by_row or len(records) == 1))\n        )\n\n")),
+         None)
+
+# seed C44_4: the immediate re-read of a server-generated version restricted to INSERTs
+_VER_RELOAD = ("        if (\n            mapper.version_id_col is not None\n            and mapper.version_id_generator is False\n        ):\n"
+               "            if mapper._version_id_prop.key in state.unloaded:\n                toload_now.extend([mapper._version_id_prop.key])\n")
+_FINAL_AT = "def _finalize_insert_update_commands(base_mapper, uowtransaction, states):\n"
+R.mutant("seed4-version-reload-only-after-insert", PERS,
+         sub(_VER_RELOAD, _VER_RELOAD.replace("            and mapper.version_id_generator is False\n", "            and mapper.version_id_generator is False\n            and not has_identity\n")), "C44-R7")
+R.mutant("version-reload-skipped-by-option", PERS,
+         sub(_VER_RELOAD, _VER_RELOAD.replace("            if mapper._version_id_prop.key in state.unloaded:\n", "            if (\n                mapper._version_id_prop.key in state.unloaded\n                and base_mapper.eager_defaults is not False\n            ):\n")), "C44-R7")
+R.mutant("version-reload-never-scheduled", PERS, sub(_VER_RELOAD, ""), "C44-R7")
+R.mutant("version-reload-not-performed-for-updates", PERS,
+         sub("        if toload_now:\n            identity_key = base_mapper._identity_key_from_state(state)\n", "        if toload_now and not has_identity:\n            identity_key = base_mapper._identity_key_from_state(state)\n"), "C44-R7")
+R.mutant("version-reload-predicate-helper-insert-only", PERS,
+         chain(sub(_VER_RELOAD, "        if _version_needs_reload(mapper, state, has_identity):\n            toload_now.extend([mapper._version_id_prop.key])\n"),
+               sub(_FINAL_AT, "def _version_needs_reload(mapper, state, has_identity):\n    return (\n        mapper.version_id_col is not None\n        and mapper.version_id_generator is False\n        and not has_identity\n"
+                              "        and mapper._version_id_prop.key in state.unloaded\n    )\n\n\n" + _FINAL_AT)), "C44-R7")
+R.mutant("benign-version-reload-merged-condition-append", PERS,
+         sub(_VER_RELOAD, "        server_versioned = (\n            mapper.version_id_col is not None\n            and mapper.version_id_generator is False\n        )\n"
+                          "        if server_versioned and mapper._version_id_prop.key in state.unloaded:\n            toload_now.append(mapper._version_id_prop.key)\n"), None)
+R.mutant("benign-version-reload-inverted-alias-augassign", PERS,
+         sub(_VER_RELOAD, "        if (\n            mapper.version_id_col is None\n            or mapper.version_id_generator is not False\n        ):\n            pass\n        else:\n"
+                          "            version_key = mapper._version_id_prop.key\n            if version_key in state.unloaded:\n                toload_now += [version_key]\n"), None)
+R.mutant("benign-version-reload-predicate-helper", PERS,
+         chain(sub(_VER_RELOAD, "        if _version_needs_reload(mapper, state):\n            toload_now.extend([mapper._version_id_prop.key])\n"),
+               sub(_FINAL_AT, "def _version_needs_reload(mapper, state):\n    return (\n        mapper.version_id_col is not None\n        and mapper.version_id_generator is False\n"
+                              "        and mapper._version_id_prop.key in state.unloaded\n    )\n\n\n" + _FINAL_AT)), None)
+R.mutant("benign-version-reload-loader-extracted", PERS,
+         chain(sub("        if toload_now:\n            identity_key = base_mapper._identity_key_from_state(state)\n            if state.key is None:\n                state.key = identity_key\n            stmt = sql.select(mapper)\n"
+                   "            loading._load_on_ident(\n                uowtransaction.session,\n                stmt,\n                identity_key,\n                refresh_state=state,\n                only_load_props=toload_now,\n            )\n",
+                   "        if toload_now:\n            _load_now(base_mapper, uowtransaction, mapper, state, toload_now)\n"),
+               sub(_FINAL_AT, "def _load_now(base_mapper, uowtransaction, mapper, state, keys):\n    identity_key = base_mapper._identity_key_from_state(state)\n    if state.key is None:\n        state.key = identity_key\n"
+                              "    stmt = sql.select(mapper)\n    loading._load_on_ident(\n        uowtransaction.session,\n        stmt,\n        identity_key,\n        refresh_state=state,\n        only_load_props=keys,\n    )\n\n\n" + _FINAL_AT)), None)
